@@ -33,7 +33,8 @@ EXPLANATION = (
     'name; R4 Attribute.__get__ yields None/default for an unset slot; R5 under strict each '
     'kind of unknown material reaches a ValidationError. Decides the structural part named in '
     'DESIGN 4/C07, not the two-spec behaviour.'
-    ' R7: introducing or inlining an alias is compatible only if an aliased reference keeps its Nullable wrap and bounds: generate_validator_constructor wraps Nullable on every return path (shared with C08-R3).')
+    ' R7: introducing or inlining an alias is compatible only if an aliased reference keeps its Nullable wrap and bounds: generate_validator_constructor wraps Nullable on every return path (shared with C08-R3).'
+    ' R8 (imported from C02-R6): lenient decoding of an unknown tag needs the catch-all the frontend adds to every open union.')
 ASSUMPTIONS = [
     'CPython ast of the current working tree is the program',
     'structured control flow only (no exceptions used for control inside the analysed functions '
@@ -381,3 +382,6 @@ def run(pm, ctx):
     ctx.rule('C07-R7', 'generated validator constructors keep nullability through aliases and every declared bound')
     from .C08 import validator_construction
     validator_construction(pm, ctx, 'C07-R7')
+    ctx.import_rules(pm, 'C02', {'C02-R6'}, 'C07-R8',
+                     'open unions get the implicit `other` catch-all exactly when no ancestor '
+                     'provides one (shared with C02-R6)')
